@@ -29,7 +29,7 @@ func RunFree(r *rt.Run) error {
 	t := r.NewTrace("free")
 	rounds := 600
 	if r.Thorough() {
-		rounds = 25000
+		rounds = 5000
 	}
 	pn := []string{"p1", "p2", "p3", "p4"}
 	for i := 0; i < rounds; i++ {
